@@ -29,7 +29,7 @@ SPECS = {
     'C05': dict(level='translation_validation', engines=['GEN'], rules=['G-CONV', 'G-FIELD', 'G-PRESENT', 'G-MOVED', 'G-SHAPE', 'G-ANCHOR', 'G-DISJ', 'G-STORE', 'G-INV'],
                 stats=['kind:conv'],
                 what='all four conversion forms per adjacent pair: removed cells read before the buffer is duplicated, carried cells untouched, added cells written from the same-named input field, removed values handed back under their own name'),
-    'C06': dict(level='translation_validation', engines=['GEN'], rules=['G-LEAK', 'G-DOUBLE', 'G-INV', 'G-OWN', 'G-CONV', 'G-PRESENT', 'G-UNANALYSABLE', 'G-CLONE', 'copy-of-owned', 'overwrite-owned'],
+    'C06': dict(level='translation_validation', engines=['GEN', 'SRC'], rules=['R-PRIM', 'G-LEAK', 'G-DOUBLE', 'G-INV', 'G-OWN', 'G-CONV', 'G-PRESENT', 'G-UNANALYSABLE', 'G-CLONE', 'copy-of-owned', 'overwrite-owned'],
                 stats=['functions', 'paths', 'kind:drop', 'kind:unpack', 'kind:conv'],
                 what='ownership typestate over the bytes of every buffer: on every exit of every generated function each owned droppable cell was consumed exactly once'),
     'C07': dict(level='translation_validation', engines=['GEN', 'SRC'], rules=['G-CAP', 'G-DEST', 'G-PRIM', 'G-TYPE', 'G-STORE', 'G-DOUBLE', 'G-INV', 'G-OWN', 'G-ACC', 'G-DISJ', 'G-UNANALYSABLE', 'R-PRIM', 'use-after-move'],
@@ -73,7 +73,7 @@ SPECS = {
 # them produced nothing, the analyser did not run (or lost its anchor) and the check fails closed
 REQUIRE = {
     'C03': ['B-APPEND', 'W1a', 'W1b', 'W1c', 'W1d'],
-    'C04': ['R-PRIM'], 'C07': ['R-PRIM'],
+    'C04': ['R-PRIM'], 'C06': ['R-PRIM-CONSUME'], 'C07': ['R-PRIM'],
     'C08': ['A-DELEG', 'O1', 'O2', 'O3', 'O4', 'O5'],
     'C09': ['O2', 'O6', 'O7', 'O8', 'O9'],
     'C10': ['A-GUARD', 'A-DELEG'],
